@@ -195,6 +195,78 @@ def build(tier, seed):
                 what="a null is rendered as the empty string, any other value as its own text with surrounding blanks "
                      "preserved, cells in column order"))
     obs.append(glue_ob("O7.section_glue", T))
+    # O8: the three paginate() methods cut pages as contiguous row slices of the ORIGINAL frame (polars model)
+    for which, sname in ((0, "default"), (1, "page_by"), (2, "subline")):
+        obs.append(Ob(
+            oid="O8.paginate_slices." + sname, sig="p1: bool, p2: bool, p3: bool, pageby_header: bool, new_page: bool", pre=[],
+            header=HDR_R + "from vf.h_paginate import run_paginate\n", timeout=T,
+            body=r'''
+    por = [1]
+    for f in (p1, p2, p3):
+        por.append(por[-1] + (1 if f else 0))
+    out = run_paginate(%d, por, pageby_header, new_page)
+    if len(out) != por[-1]:
+        return False
+    seen = []
+    for i, pg in enumerate(out):
+        rows = [j for j, p in enumerate(por) if p == i + 1]
+        got = pg.data.to_dicts()
+        if [r["v"] for r in got] != ["r%%d" %% j for j in rows] or pg.data.columns != ["g", "s", "v"]:
+            return False
+        seen += [r["v"] for r in got]
+        if pg.page_number != i + 1 or pg.total_pages != por[-1]:
+            return False
+    return seen == ["r0", "r1", "r2", "r3"]
+''' % which,
+            funcs=["rtflite.pagination.strategies.defaults:DefaultPaginationStrategy.paginate",
+                   "rtflite.pagination.strategies.grouping:PageByStrategy.paginate", "rtflite.pagination.strategies.grouping:SublineStrategy.paginate"],
+            stubs=["polars -> vf.minipl model (substituted in sys.modules during the call)", "calculate_row_metadata -> given page assignment",
+                   "PageContext -> recording namespace"],
+            bounds="4 rows assigned to 1..4 pages (symbolic break positions), pageby_header / new_page symbolic; %s strategy" % sname,
+            what="pages are materialised in ascending page number, each holding exactly the rows assigned to it, all columns, in order; "
+                 "every row appears on exactly one page"))
+    # O9: multi-section documents render their sections in list order, each exactly once
+    obs.append(Ob(
+        oid="O9.section_order", sig="n: int, hdr_nested: bool, fn: bool", pre=["1 <= n <= 3"], timeout=T,
+        header=HDR_R + r'''
+from vf.hlib import concrete_int
+class Enc:
+    def encode_document_start(self): return "{START"
+    def encode_font_table(self): return "{F}"
+    def encode_color_table(self, document=None, used_colors=None): return ""
+    def encode_page_header(self, cfg, method="line"): return ""
+    def encode_page_footer(self, cfg, method="line"): return ""
+    def encode_page_settings(self, page): return "SET"
+''',
+        body=r'''
+    k = concrete_int(n, 1, 3)
+    calls = []
+    me = UnifiedRTFEncoder.__new__(UnifiedRTFEncoder)
+    me.encoding_service = Enc()
+    def section(document, df, body):
+        calls.append((df.tag, body.tag, document.df.tag, document.rtf_body.tag))
+        return ["SEC%d" % df.tag]
+    me._encode_body_section = section
+    dfs = [NS(tag=i, shape=(2, 2)) for i in range(k)]
+    bodies = [NS(tag=i, new_page=False, border_bottom=[[""]], text_color=None, text_background_color=None, border_color_left=None,
+                 border_color_right=None, border_color_top=None, border_color_bottom=None, border_color_first=None,
+                 border_color_last=None) for i in range(k)]
+    comp = lambda: NS(text=["t"], text_color=None, text_background_color=None, border_bottom=[[""]])
+    doc = NS(df=dfs, rtf_body=bodies, rtf_column_header=[[None]] * k if hdr_nested else [NS(text_color=None, text_background_color=None)],
+             rtf_page=NS(page_title="all", page_footnote="last", page_source="last", border_first="double", border_last="double", col_width=6.0),
+             rtf_title=comp(), rtf_subline=None, rtf_footnote=comp() if fn else None, rtf_source=None, rtf_page_header=None, rtf_page_footer=None,
+             rtf_figure=None)
+    doc.model_copy = lambda update=None: NS(**dict(doc.__dict__, **(update or {})))
+    for c in (doc.rtf_title, doc.rtf_footnote, doc.rtf_page):
+        if c is not None:
+            c.model_copy = (lambda cc: (lambda: NS(**cc.__dict__)))(c)
+    out = me.encode(doc)
+    return calls == [(i, i, i, i) for i in range(k)] and [x for x in out.split("\n") if x.startswith("SEC")] == ["SEC%d" % i for i in range(k)]
+''',
+        funcs=["rtflite.encoding.unified_encoder:UnifiedRTFEncoder._encode_multi_section"],
+        stubs=["_encode_body_section -> recorder", "document / components -> namespaces with model_copy", "encoding service -> tokens"],
+        bounds="1..3 sections, nested or flat header list, footnote present or not",
+        what="each section's frame is encoded with its own body attributes, exactly once, and the sections appear in list order"))
     meta = {
         "explanation": "Row conservation is decomposed into the pure-Python kernels named in the property's anchors, each executed "
                        "symbolically by CrossHair on the real code: page assignment (unbounded heights), re-slicing by cumulative "
